@@ -36,7 +36,8 @@ func c12Label(tag string) string {
 
 // c12Store builds a store of nm metrics chosen from every kind/type, 0..1
 // keys, 0..2 label sets with symbolic values, timestamps and label bytes.
-func c12Store(nm int, symLabels bool) (*metrics.Store, []*c12Metric) {
+// promKeys: the key is either representable as a Prometheus label name or not.
+func c12Store(nm int, symLabels, promKeys bool) (*metrics.Store, []*c12Metric) {
 	s := metrics.NewStore()
 	var out []*c12Metric
 	for i := 0; i < nm; i++ {
@@ -47,6 +48,11 @@ func c12Store(nm int, symLabels bool) (*metrics.Store, []*c12Metric) {
 		var keys []string
 		if nkeys == 1 {
 			keys = []string{"key-a"}
+			if promKeys {
+				// a label name the Prometheus client accepts, or one it
+				// refuses (every label set of that metric is unrepresentable)
+				keys = []string{[]string{"key_a", "key-a"}[nondetRange("keyname", 0, 1)]}
+			}
 		}
 		m := metrics.NewMetric("met-ric"+string(rune('0'+i)), "prog", kind, typ, keys...)
 		m.Source = "src:1"
@@ -54,8 +60,8 @@ func c12Store(nm int, symLabels bool) (*metrics.Store, []*c12Metric) {
 			m.Buckets = []datum.Range{{0, 1}, {1, 2}, {2, math.Inf(1)}}
 		}
 		cm := &c12Metric{m: m}
-		maxlv := 2
-		if nkeys == 0 {
+		maxlv := vParam("maxlv", 2)
+		if nkeys == 0 && maxlv > 1 {
 			maxlv = 1
 		}
 		nlv := nondetRange("nlv", 0, maxlv)
@@ -65,13 +71,13 @@ func c12Store(nm int, symLabels bool) (*metrics.Store, []*c12Metric) {
 				if symLabels {
 					lab = []string{c12Label("label")}
 				} else {
-					lab = []string{string(rune('x' + j))}
+					lab = []string{string(rune('x' + j))} // x, y, z
 				}
 			}
 			// distinct label sets only (a second GetDatum of the same tuple
 			// would return the first datum)
-			if j == 1 && nkeys == 1 {
-				vAssume(lab[0] != cm.labels[0][0])
+			for q := 0; q < j && nkeys == 1; q++ {
+				vAssume(lab[0] != cm.labels[q][0])
 			}
 			d, err := m.GetDatum(lab...)
 			if err != nil {
@@ -144,7 +150,7 @@ var c12Faults int
 // (C13).
 func HarnessC12Prom() {
 	nm := vParam("nmetrics", 1)
-	s, ms := c12Store(nm, vParam("symlabels", 1) == 1)
+	s, ms := c12Store(nm, vParam("symlabels", 1) == 1, true)
 	e := &Exporter{store: s, omitProgLabel: nondetBool("omitProg"), emitTimestamp: nondetBool("emitTS")}
 	c := make(chan prometheus.Metric, 16)
 	e.Collect(c)
@@ -283,7 +289,7 @@ func (w *faultWriter) WriteString(s string) (int, error) {
 // HarnessC12Socket: the push path with a connection that fails at a
 // solver-chosen write.
 func HarnessC12Socket() {
-	s, ms := c12Store(vParam("nmetrics", 1), false)
+	s, ms := c12Store(vParam("nmetrics", 1), false, false)
 	e := &Exporter{store: s, hostname: "host", pushInterval: 60 * time.Second}
 	w := &faultWriter{}
 	f := []formatter{metricToGraphite, metricToStatsd, metricToCollectd}[nondetRange("format", 0, 2)]
@@ -295,7 +301,7 @@ func HarnessC12Socket() {
 // HarnessC12HTTP: the varz and graphite handlers with a client that goes away
 // (context cancelled) before or between writes.
 func HarnessC12HTTP() {
-	s, ms := c12Store(vParam("nmetrics", 1), false)
+	s, ms := c12Store(vParam("nmetrics", 1), false, false)
 	e := &Exporter{store: s, hostname: "host"}
 	ctx, cancel := context.WithCancel(context.Background())
 	if vFault("cancel-before") {
